@@ -50,7 +50,7 @@ func (w *govcTW) put(s string) {
 	}
 }
 
-var govcGaps = []string{" ", "  ", "\t", "\n", "\r\n", "\n  ", " // c é\n", " /* c */ ", "/* two\n lines ü */", "\n\n\t", " /**/ "}
+var govcGaps = []string{" ", "  ", "\t", "\n", "\r\n", "\n  ", " // c é\n", " /* c */ ", "/* two\n lines ü */", "\n\n\t", " /**/ ", "/*\t*/", " /* a\tb */", "/* é\t\tü */ ", "/* x\n\ty\t*/", " // t\tt\n"}
 
 func (w *govcTW) gap(must bool) {
 	n := w.rng.Intn(3)
@@ -117,7 +117,7 @@ func govcDQMultilineOK(a string) bool {
 
 func (w *govcTW) quoted(a string) {
 	canSingle := !strings.Contains(a, "'")
-	multiOK := govcDQMultilineOK(a) && !w.tabOnLine
+	multiOK := govcDQMultilineOK(a) // (tabs before the opening quote on its line count to the next multiple of eight, as in the lexer)
 	k := w.rng.Intn(3)
 	if strings.Contains(a, "\r") {
 		k = 0
@@ -313,6 +313,12 @@ func TestGovcBoundedC02Parse(t *testing.T) {
 		{"k a+b;", "k", "a+b"},
 		{"k +;", "k", "+"},
 		{"k a/b;", "k", "a/b"},
+		// pattern mode ends with the argument: inside the block escapes are checked again
+		{"pattern \"[a-z]+\" { error-message \"no \\d\"; }", "", ""},
+		{"pattern \"\\d\" { x { y \"\\q\"; } }", "", ""},
+		{"pattern \"\\d\"; description \"\\d\";", "", ""},
+		{"units +/-1;", "units", "+/-1"},
+		{"+/a;", "+/a", ""},
 	}
 	for _, f := range fixed {
 		evals++
@@ -331,5 +337,5 @@ func TestGovcBoundedC02Parse(t *testing.T) {
 			fmt.Printf("GOVC-FAIL name=c02-forest %q parses as %s (%v), expected %s %q\n", f.text, got, err, f.kw, f.arg)
 		}
 	}
-	fmt.Printf("GOVC-BOUNDED name=c02-forest-round-trip bound=%d_generated_forests_written_in_random_RFC_6.1.3_spellings_(seed_%d),_each_also_damaged_once,_+_10_fixed_cases evaluations=%d distinct=%d\n", texts, seed, evals, stmts)
+	fmt.Printf("GOVC-BOUNDED name=c02-forest-round-trip bound=%d_generated_forests_written_in_random_RFC_6.1.3_spellings_(seed_%d),_each_also_damaged_once,_+_15_fixed_cases evaluations=%d distinct=%d\n", texts, seed, evals, stmts)
 }
